@@ -147,8 +147,8 @@ def plan(tier, seed):
     jobs = []
     nshards = 32 if tier == "quick" else 96
     for k in range(nshards):
-        jobs.append({"sub": "grid", "seed": seed, "shard": k, "nshards": nshards, "nseeds": 20 if tier == "quick" else 200, "cost": 10})
-    n = scaled(1600 if tier == "quick" else 40000)
+        jobs.append({"sub": "grid", "seed": seed, "shard": k, "nshards": nshards, "nseeds": 60 if tier == "quick" else 400, "cost": 10})
+    n = scaled(6400 if tier == "quick" else 80000)
     shards = 8 if tier == "quick" else 32
     for k in range(shards):
         jobs.append({"sub": "big", "seed": seed, "shard": k, "n": max(1, n // shards), "cost": 3})
@@ -169,8 +169,13 @@ def run(job):
                 case["seeds"][0] = 0
             try:
                 lab = check(case)
-                acc.record(case, lab, _nontrivial(case, lab), by_construction=True, sample=False)
-                if _nontrivial(case, lab) and len(acc.samples) < 2 and n % 97 == 0:
+                nt = _nontrivial(case, lab)
+                acc.record(case, lab, nt, by_construction=True, sample=False)
+                # every (cell, seed) pair is one library call = one evaluation, distinct by construction
+                acc.evaluations += ns - 1
+                if nt:
+                    acc.nt_exhaustive += ns - 1
+                if nt and len(acc.samples) < 2 and n % 97 == 0:
                     acc.samples.append({**{k: v for k, v in case.items() if k != "seeds"}, "seeds": "%d seeds" % ns})
             except Violation as v:
                 acc.record(case, [], False)
